@@ -210,7 +210,7 @@ theorem call_abs {o : Oracle} {fuel op cap : Nat} {rem del : Bytes} {s s' : St} 
       · simp [h0]
       · by_cases hpr : s1.streamState = .processing
         · by_cases hpe : s1.pending.length = 0
-          · exact absurd ⟨hpe, hpr⟩ (hx h0)
+          · exact absurd ⟨hpe, hpr⟩ (hx.nonzero h0)
           · simp [hpe]
         · simp [hpr]
     rw [hd]
@@ -341,14 +341,14 @@ theorem drive_rpath {o : Oracle} {fuel op : Nat} (hop2 : op ≤ 2) (a : Abs) :
     ∀ (sched : List SchedStep) (s : St) (rem del : Bytes) (d : Bool) (s' : St) (rem' del' : Bytes) (d' : Bool),
       Bnd op s rem → RPath o op a (absR s rem del) d → (d = true → s.pending = [] ∧ s.streamState = .processing) →
       driveReq o fuel op sched s rem del d = some (s', rem', del', d') →
-      RPath o op a (absR s' rem' del') d' ∧ Bnd op s' rem' := by
+      RPath o op a (absR s' rem' del') d' ∧ Bnd op s' rem' ∧ (d' = true → s'.pending = [] ∧ s'.streamState = .processing) := by
   intro sched
   induction sched with
   | nil =>
-    intro s rem del d s' rem' del' d' hB hR _ h
+    intro s rem del d s' rem' del' d' hB hR hd h
     simp only [driveReq, Option.some.injEq, Prod.mk.injEq] at h
     obtain ⟨rfl, rfl, rfl, rfl⟩ := h
-    exact ⟨hR, hB⟩
+    exact ⟨hR, hB, hd⟩
   | cons st rest ih =>
     intro s rem del d s' rem' del' d' hB hR hd h
     cases st with
@@ -414,5 +414,122 @@ theorem drive_rpath {o : Oracle} {fuel op : Nat} (hop2 : op ≤ 2) (a : Abs) :
             rw [h1]
             exact ⟨n0, _, p0, hu, hfl⟩
       all_goals simp at h
+
+/-- **a checkable completion criterion**: a call that returns with nothing pending has completed its
+request — the flush is done, or the abstract machine has nothing left to do -/
+theorem call_final {o : Oracle} {fuel op cap : Nat} {rem : Bytes} {s s' : St} {io' : Io}
+    (hop2 : op ≤ 2) (hB : Bnd op s rem)
+    (h : compressStream o fuel s op rem cap = .ok (s', io', true)) (hp : s'.pending = []) (d : Bytes) :
+    callDone op s' = true ∨ ustep o op (absR s' io'.input d) = none := by
+  have red : ∃ si, Inv si ∧ compressStream o fuel si op rem cap = .ok (s', io', true) ∧ si.inputPos + rem.length < two64
+      ∧ (op = 0 → si.streamState ≠ .flushRequested) := by
+    rcases hB.inv with hf | hI
+    · refine ⟨ensureInitialized s, (inv_fresh hf).1, by rw [← compressStream_ensure]; exact h, ?_, ?_⟩
+      · obtain ⟨p, rfl⟩ := hf
+        have : (ensureInitialized { St.new with params := p }).inputPos = 0 := by simp [ensureInitialized, St.new]
+        rw [this]; have := hB.wrap; simp [St.new] at this; omega
+      · intro _
+        obtain ⟨p, rfl⟩ := hf
+        simp [ensureInitialized, St.new]
+    · exact ⟨s, hI, h, hB.wrap, hB.noflush⟩
+  obtain ⟨si, hI, hcall, hw, hnfl⟩ := red
+  obtain ⟨evs, s1, hsteps, _, hcfc, hs', hx⟩ := call_steps2 hop2 hI hw hcall
+  have hin : io'.availIn = io'.input.length := steps_inOK hsteps hop2 rfl
+  obtain ⟨_, _, _, _, _, _, _, k8, _⟩ := checkFlushComplete_frame s1
+  have hp1 : s1.pending.length = 0 := by
+    rw [hs', k8] at hp; rw [hp]; rfl
+  have hst' := checkFlushComplete_state s1
+  have hpre : Inv s1 ∧ ¬ PadDue s1 := by
+    rw [hs'] at hcfc
+    cases hcfc with
+    | cfc a1 a2 a3 a4 a5 => exact ⟨a1, a4⟩
+  obtain ⟨hI1, hnp1⟩ := hpre
+  by_cases hfl : s1.streamState = .flushRequested
+  · left
+    have h0 : op ≠ 0 := by
+      intro hh; subst hh
+      exact steps_op0 hsteps (hnfl rfl) hfl
+    unfold callDone
+    rw [hs', hst', if_pos ⟨hfl, hp1⟩, k8]
+    simp [h0, hp1]
+  · right
+    have hid : checkFlushComplete s1 = s1 := by
+      unfold checkFlushComplete
+      rw [if_neg (fun hh => hfl hh.1)]
+    rw [hs', hid]
+    have hi : ¬ ((absR s1 io'.input d).s.isInitialized = false) := by
+      show ¬ (s1.isInitialized = false); rw [hI1.init]; simp
+    have hnp' : ¬ PadDue (absR s1 io'.input d).s := hnp1
+    have hnfl' : ¬ ((absR s1 io'.input d).s.streamState = .flushRequested) := hfl
+    have hav : (absR s1 io'.input d).availIn = io'.availIn := by
+      show io'.input.length = io'.availIn; rw [hin]
+    unfold ustep
+    rw [if_neg hi]
+    rcases hx with ⟨hfm, hc⟩ | ⟨hnf, hc1, hc2⟩
+    · have hfm' : fastMode (absR s1 io'.input d).s.params := hfm
+      have hc' : ¬ ((absR s1 io'.input d).s.streamState = .processing ∧ ((absR s1 io'.input d).availIn ≠ 0 ∨ op ≠ 0)) := by
+        rw [hav]; intro hh; exact hc ⟨hp1, hh.1, hh.2⟩
+      rw [if_pos hfm', if_neg hnp', if_neg hc', if_neg hnfl']
+    · have hnf' : ¬ fastMode (absR s1 io'.input d).s.params := hnf
+      have hc1' : ¬ (remainingInputBlockSize (absR s1 io'.input d).s ≠ 0 ∧ (absR s1 io'.input d).availIn ≠ 0) := by
+        rw [hav]; exact hc1
+      have hc2' : ¬ ((absR s1 io'.input d).s.streamState = .processing ∧ (remainingInputBlockSize (absR s1 io'.input d).s = 0 ∨ op ≠ 0)) := by
+        intro hh; exact hc2 ⟨hp1, hh.1, hh.2⟩
+      rw [if_neg hnf', if_neg hc1', if_neg hnp', if_neg hc2', if_neg hnfl']
+
+/-- a final abstract configuration is not in FLUSH_REQUESTED -/
+theorem final_noflush {o : Oracle} {op : Nat} {s : St} {rem del : Bytes} (hB : Bnd op s rem)
+    (h : ustep o op (absR s rem del) = none) : s.streamState ≠ .flushRequested ∧ s.isInitialized = true := by
+  have hi : s.isInitialized = true := by
+    cases hh : s.isInitialized
+    · exfalso
+      unfold ustep at h
+      have : (absR s rem del).s.isInitialized = false := hh
+      rw [if_pos this] at h
+      cases h
+    · rfl
+  refine ⟨?_, hi⟩
+  intro hfl
+  have hrem := hB.nonproc (by rw [hfl]; simp)
+  have hi' : ¬ ((absR s rem del).s.isInitialized = false) := by
+    show ¬ (s.isInitialized = false); rw [hi]; simp
+  have hnp' : ¬ PadDue (absR s rem del).s := hB.nopad
+  have hst' : (absR s rem del).s.streamState = .flushRequested := hfl
+  have hav : (absR s rem del).availIn = 0 := by show rem.length = 0; rw [hrem]; rfl
+  unfold ustep at h
+  rw [if_neg hi'] at h
+  by_cases hfm : fastMode (absR s rem del).s.params
+  · have hc : ¬ ((absR s rem del).s.streamState = .processing ∧ ((absR s rem del).availIn ≠ 0 ∨ op ≠ 0)) := by
+      intro hh; rw [hst'] at hh; cases hh.1
+    rw [if_pos hfm, if_neg hnp', if_neg hc, if_pos hst'] at h
+    cases h
+  · have hc1 : ¬ (remainingInputBlockSize (absR s rem del).s ≠ 0 ∧ (absR s rem del).availIn ≠ 0) := by
+      intro hh; exact hh.2 hav
+    have hc2 : ¬ ((absR s rem del).s.streamState = .processing ∧ (remainingInputBlockSize (absR s rem del).s = 0 ∨ op ≠ 0)) := by
+      intro hh; rw [hst'] at hh; cases hh.1
+    rw [if_neg hfm, if_neg hc1, if_neg hnp', if_neg hc2, if_pos hst'] at h
+    cases h
+
+/-- the boundary invariant carries over to the next request (given the caller keeps the contract:
+no input outside PROCESSING, no 64-bit wrap) -/
+theorem bnd_next {o : Oracle} {op op2 : Nat} {s : St} {rem del chunk2 : Bytes} {d : Bool} (hB : Bnd op s rem)
+    (hd : d = true → s.pending = [] ∧ s.streamState = .processing)
+    (hfin : d = true ∨ ustep o op (absR s rem del) = none)
+    (hc : s.streamState ≠ .processing → chunk2 = []) (hw : s.inputPos + chunk2.length < two64) : Bnd op2 s chunk2 := by
+  refine ⟨hB.inv, hB.nopad, hc, hB.rm, hw, ?_⟩
+  intro _
+  rcases hfin with h1 | h1
+  · rw [(hd h1).2]; simp
+  · exact (final_noflush hB h1).1
+
+/-- a fresh encoder is at a call boundary -/
+theorem bnd_fresh {op : Nat} {s : St} {chunk : Bytes} (hf : IsFresh s) (hw : chunk.length < two64) : Bnd op s chunk := by
+  obtain ⟨p, rfl⟩ := hf
+  refine ⟨Or.inl ⟨p, rfl⟩, ?_, ?_, ?_, ?_, ?_⟩
+  · intro hh; simp [PadDue, St.new] at hh
+  · intro hh; simp [St.new] at hh
+  · intro hh; simp [St.new] at hh
+  · simp [St.new]; exact hw
+  · intro _; simp [St.new]
 
 end BV.Stream
